@@ -146,7 +146,7 @@ def check(env, rep, tier):
                 rep.ob("C17.3", "%s|empty=>None" % path, ok, "%s on an empty parser can yield something other than None" % path,
                        {"file": body["span"]["f"], "line": body["span"]["l"], "fn": path})
         if cfg == "default":
-            rep.floor("C17.1", "panic-capable sites analysed in the link-format parser", nsites, 12)
+            rep.floor("C17.1", "panic-capable sites analysed in the link-format parser", nsites, 6)
 
 
 def check_cow_escape_free(prog, rep, body, path):
